@@ -288,6 +288,7 @@ def known_sig(t, l, clause):
         # a task whose fired transitions contain fail / succeed completed while the execution was PAUSED: the command takes
         # effect only at resume, and whatever resolves in between (a join that fails, another branch) differs from the unpaused run
         delayed = False
+        want = set()
         for k, st in enumerate(t['steps'][:l]):
             if k == 0:
                 continue
@@ -299,7 +300,13 @@ def known_sig(t, l, clause):
                         cl = (d_.get('err', []) if wr['to'] == 'ERROR' else d_.get('succ', [])) + d_.get('comp', [])
                         if any(e.get('fires') and e.get('to') in ('fail', 'succeed') for e in cl):
                             delayed = True
-        out['terminating_command_delayed_by_pause'] = delayed
+                            want |= {'ERROR' if e['to'] == 'fail' else 'SUCCESS' for e in cl if e.get('fires') and e.get('to') in ('fail', 'succeed')}
+        # ... and the command DID take effect when the execution was resumed (the finding is about what resolves in between, not about
+        # a command that gets lost)
+        took = any(st['ev']['kind'] == 'op' and st['ev']['what'] == 'resume' and
+                   any(wr['kind'] == 'wf' and wr['sid'] == 'r' and wr['to'] in want for wr in st['ev'].get('writes', []))
+                   for st in t['steps'][:l])
+        out['terminating_command_delayed_by_pause'] = delayed and took
     if clause == 'PauseBeforeRespected':
         # which pause-before tasks started an action / sub-workflow without a PAUSED period followed by a resume ?
         born, first_kid = {}, {}
